@@ -66,6 +66,13 @@ func (rs *RecordSet) readFromVersion2(d *decoder) error {
 	dec.reader = buffer
 	dec.remain = recordsLength
 
+	if numRecords < 0 || int(numRecords) > recordsLength {
+		// Every record takes at least one byte: a count which is negative or
+		// larger than the (decompressed) records section is malformed, and
+		// must not drive the allocations below.
+		return fmt.Errorf("invalid record count %d in a record batch of %d bytes: %w", numRecords, recordsLength, io.ErrUnexpectedEOF)
+	}
+
 	records := make([]optimizedRecord, numRecords)
 	// These are two lazy allocators that will be used to optimize allocation of
 	// page references for keys and values.
@@ -117,6 +124,13 @@ func (rs *RecordSet) readFromVersion2(d *decoder) error {
 		if numHeaders := dec.readVarInt(); numHeaders > 0 {
 			if headers == nil {
 				headers = make([][]Header, numRecords)
+			}
+
+			if numHeaders > int64(dec.remain) {
+				// same reasoning for the headers of a record
+				dec.setError(fmt.Errorf("invalid header count %d with %d bytes remaining in the record batch: %w", numHeaders, dec.remain, io.ErrUnexpectedEOF))
+				records = records[:i]
+				break
 			}
 
 			h := make([]Header, numHeaders)
